@@ -47,6 +47,15 @@ theorem macro_arg_single_line (s : Str) : '\n' ∉ troffEscapeArg s := nl_not_me
 
 example : troffEscapeArg "a\\b\n.c-d".toList = "a\\eb .c\\-d".toList := by decide
 
+/-- **A macro argument holds no bare double quote**: in a macro argument `"` is troff's argument quoting (the quote
+characters are not output, an unbalanced one swallows the rest of the line), so document text that reaches `.SH`, `.SS`
+or `.TH` has each of them written as `\(dq`. -/
+theorem macro_arg_no_bare_quote (s : Str) : '"' ∉ troffEscapeArg s := by
+  unfold troffEscapeArg
+  exact not_mem_replaceChar '"' _ (by decide) _
+
+example : troffEscapeArg "Say \"hi\"".toList = "Say \\(dqhi\\(dq".toList := by decide
+
 /-- **Text in order.** The text chunks of the output, concatenated, are exactly the escaped arguments of
 the `handle_text` calls of the tree walk, in walk order (TEXT / PREFORMATTED leaves and the ` (href)`
 suffix of URL nodes): nothing lost at the end of the page, duplicated, reordered, or written unescaped. -/
